@@ -30,14 +30,15 @@ CLAUSES = {
 PLANS = {
     'C03': {'quick': [('control', 3, [G_NEAR]), ('far', 4, [G_CJ, G_J]), ('far', 3, [G_CB, G_B, G_BEYOND])],
             'thorough': [('control', 4, [G_NEAR, G_CB]), ('far', 4, [G_CB, G_CJ, G_B, G_J, G_BEYOND]), ('far', 5, [G_CJ])]},
-    'C04': {'quick': [('control', 4, [G_NEAR]), ('literals', 2, [[]]), ('far', 3, [G_CB, G_CJ])],
+    'C04': {'quick': [('control', 4, [G_NEAR]), ('literals', 2, [[]]), ('far', 3, [G_CB, G_CJ, G_J])],
             'thorough': [('control', 4, [G_NEAR, G_CB, G_CJ]), ('literals', 3, [[]]), ('far', 4, [G_CB, G_CJ, G_B, G_J])]},
     'C08': {'quick': [('values', 3, [G_NEAR, G_CJ]), ('values', 2, [G_J])],
             'thorough': [('values', 4, [G_NEAR]), ('values', 3, [G_CB, G_CJ, G_B, G_J])]},
     'C09': {'quick': [('aligns', 4, [[]]), ('aligns', 3, [G_NEAR])],
             'thorough': [('aligns', 5, [[]]), ('aligns', 4, [G_NEAR, G_CJ])]},
-    'C12': {'quick': [('control', 3, [G_NEAR, G_CJ]), ('values', 3, [G_NEAR, G_CJ]), ('far', 3, [G_CB, G_J]), ('literals', 2, [[]])],
-            'thorough': [('control', 4, [G_NEAR, G_CB]), ('values', 4, [G_NEAR]), ('values', 3, [G_CJ, G_B, G_J]), ('far', 4, [G_CB, G_CJ, G_B, G_J]), ('literals', 3, [[]])]},
+    'C12': {'quick': [('control', 3, [G_NEAR, G_CJ]), ('values', 3, [G_NEAR, G_CJ]), ('far', 3, [G_J]), ('literals', 2, [[]]), ('abs', 4, [[]]), ('oddalign', 4, [[]])],
+            'thorough': [('control', 4, [G_NEAR, G_CB]), ('values', 4, [G_NEAR]), ('values', 3, [G_CJ, G_B, G_J]), ('far', 4, [G_CB, G_CJ, G_B, G_J]), ('literals', 3, [[]]),
+                         ('abs', 5, [[]]), ('oddalign', 5, [[]])]},
     'C20': {'quick': [('literals', 2, [[]]), ('control', 3, [G_NEAR, G_CJ]), ('aligns', 3, [[]])],
             'thorough': [('literals', 3, [[]]), ('control', 4, [G_NEAR, G_CJ]), ('aligns', 4, [[]]), ('far', 4, [G_CB, G_J])]},
 }
@@ -63,6 +64,10 @@ def signature(prop, mode, clause, idx, rec):
         sig['error'] = msg_class(c.get('msg', ''))
         sig['item'] = (eit['k'] + (':' + eit['m'] if eit['m'] else '') + (':' + eit['f'] if eit['f'] else '')) if eit else ''
         sig['label_dependent'] = bool(eit and eit['t'])
+        # the parity of a distance across an odd alignment / odd-sized data differs between the two layouts
+        odd_layout = any((it['k'] == 'align' and it['n'] % 2 == 1 and it['n'] > 1) or (it['k'] in ('data', 'gap') and it['n'] % 2 == 1) for it in prog)
+        if odd_layout and eit and eit['k'] in ('br', 'jal', 'pbr', 'pj') and 'multiple of N' in sig['error'].replace('muliple', 'multiple'):
+            sig['cause'] = 'odd-layout-parity'
     return sig
 
 
@@ -115,11 +120,45 @@ def run_plan(run, scratch, prop):
                         'a program the assembler refuses in both modes is outside "every assembled program"']
 
 
+def model_level(run, scratch, prop):
+    """Design level: the implementation-shaped pipeline model (AsmPasses) satisfies the reference clauses on every program of
+    the class, and each named deviation (a historical defect) is reproduced as a counterexample."""
+    n = 3 if run.tier == 'quick' else 4
+    plans = [('control', n, G_NEAR, {}), ('far', n, G_CJ, {}), ('far', 3, G_J, {}), ('values', 3, G_NEAR, {}), ('aligns', 3, [], {})]
+    devs = [('far', 3, G_CJ, {'Dev_NearCallLo': True}, 'M_TargetExact'), ('far', 3, G_J, {'Dev_CompressPairJalr': True}, 'M_TargetExact')]
+    invs = ['M_LabelsExact', 'M_TargetExact', 'M_AgreesWithRun', 'M_CompressSafe']
+    for cls, maxlen, gaps, dev in plans:
+        cfg = os.path.join(scratch, 'mc_%s_%d_%d.cfg' % (cls, maxlen, len(gaps)))
+        tlc.write_cfg(cfg, spec='MSpec', constants=dict({'Class': cls, 'MaxLen': maxlen, 'Gaps': set(gaps), 'MaxGapItems': 1,
+                                                         'Dev_NearCallLo': False, 'Dev_CompressPairJalr': False}, **dev),
+                      invariants=invs, properties=['M_LabelsMonotone'])
+        r = tlc.run('AsmPassesMC', cfg, workers=16, heap='6g', timeout=7200)
+        if r.invariant_violated or r.property_violated or not r.completed:
+            raise tlc.TlcFailure('AsmPasses model violates %s on class %s: %s' % (r.invariant_violated, cls, r.out[-2500:]))
+        run.add_tlc('AsmPassesMC %s N=%d gaps=%s' % (cls, maxlen, gaps), r)
+    caught = {}
+    for cls, maxlen, gaps, dev, inv in devs:
+        cfg = os.path.join(scratch, 'mcdev_%s.cfg' % list(dev)[0])
+        tlc.write_cfg(cfg, spec='MSpec', constants=dict({'Class': cls, 'MaxLen': maxlen, 'Gaps': set(gaps), 'MaxGapItems': 1,
+                                                         'Dev_NearCallLo': False, 'Dev_CompressPairJalr': False}, **dev), invariants=[inv])
+        r = tlc.run('AsmPassesMC', cfg, workers=8, heap='4g', timeout=3600)
+        if inv not in r.invariant_violated:
+            raise tlc.TlcFailure('non-vacuity: deviation %s is not caught by %s on the model' % (dev, inv))
+        caught[list(dev)[0]] = inv
+    run.coverage['model_deviations_caught'] = caught
+
+
 def judge(run, scratch, prop, want, progs, origin, nontrivial):
     if not progs:
         return 0
     recs = layout.assemble_all(progs, scratch)
-    bad = layout.validate(recs, scratch, run)
+    drift = {}
+    bad = layout.validate(recs, scratch, run, drift=drift)
+    run.coverage['drift'] += len(drift)
+    if drift and 'drift_samples' not in run.coverage:
+        i = sorted(drift)[0]
+        run.coverage['drift_samples'] = [{'source': recs[i]['src'], 'model_disagrees_on': drift[i], 'nc': {k: recs[i]['nc'][k] for k in ('status', 'sizes', 'labels')},
+                                          'c': {k: recs[i]['c'][k] for k in ('status', 'sizes', 'labels')}}]
     for i, rec in enumerate(recs):
         if rec['nc']['status'] == 'ok' or rec['c']['status'] == 'ok':
             nontrivial.add(rec['src'])
@@ -142,6 +181,7 @@ def judge(run, scratch, prop, want, progs, origin, nontrivial):
 
 
 def c03(run, scratch):
+    model_level(run, scratch, 'C03')
     run_plan(run, scratch, 'C03')
 
 
